@@ -40,6 +40,7 @@ TRUSTED_BASE = [
 ]
 
 TOL = Fraction(1, 10 ** 6)
+STATS = {"grid_points_judged": 0, "grid_points_skipped_inside_margin": 0, "time_cases_exact_multiple_judged": 0}
 logging.disable(logging.INFO)
 
 
@@ -157,8 +158,8 @@ def gen_time(rng, exact=None):
         period = fstr(k * interval)
     else:
         k = rng.randint(1, T - 1) if rng.random() < 0.8 else rng.randint(1, T)
-        fracs = ["0.25", "0.5", "0.75", "0.1", "0.9", "0.37", "0.999", "0.001"]
-        period = fstr(round((k + Fraction(rng.choice(fracs))) * interval, 9))
+        fracs = ["0.25", "0.5", "0.75", "0.1", "0.9", "0.37", "0.999", "0.001", "0.9999999", "0.0000001"]
+        period = fstr(round((k + Fraction(rng.choice(fracs))) * interval, 12))
         if int(Fraction(period) / interval) > T:
             period = fstr(k * interval)
     cplx = rng.random() < 0.4
@@ -295,7 +296,9 @@ def compare(c, real, rerr, outs):
         d, C = c["d"], prod(c["shape"])
         G = prod(c["ng"])
         if rerr:
-            return "bad", f"C16:{fn}:grid:{d}D:{rerr.split(':')[0]}", f"{fn} raised {rerr} for ngrids={c['ng']}"
+            exc = rerr.split(":")[0]
+            key = f"C16:{fn}:grid:{d}D:IndexError" if exc == "IndexError" else f"C16:{fn}:raised:{exc}:{d}D:rank{len(c['shape'])}"
+            return "bad", key, f"{fn} raised {rerr} for ngrids={c['ng']}, property rank {len(c['shape'])}"
         if list(real["pos"].shape) != [c["T"], G, d] or list(real["val"].shape) != [c["T"], G] + c["shape"]:
             return "bad", f"C16:{fn}:shape", f"{fn} returned shapes {real['pos'].shape}, {real['val'].shape}"
         judged = 0
@@ -312,8 +315,10 @@ def compare(c, real, rerr, outs):
             rval = real["val"][n].reshape(G, C)
             for g in range(G):
                 if not c["tie"] and fr(ms[g]) < TOL:
+                    STATS["grid_points_skipped_inside_margin"] += 1
                     continue
                 judged += 1
+                STATS["grid_points_judged"] += 1
                 for k in range(C):
                     if not common.close(mval[g, k], rval[g, k], 1e-7):
                         return "bad", f"C16:{fn}:value:rank{len(c['shape'])}", (
@@ -329,6 +334,8 @@ def compare(c, real, rerr, outs):
         return "skip", None, None           # outside the property's domain (empty or over-long window)
     if rerr:
         return "bad", f"C16:{fn}:raised:{rerr.split(':')[0]}", f"{fn} raised {rerr}"
+    if exact:
+        STATS["time_cases_exact_multiple_judged"] += 1
     res, mid = real["res"], real["mid"]
     tag = "exact-multiple" if exact else "generic"
     if res.shape[0] != nres:
@@ -405,9 +412,12 @@ def classify(run, c):
 # ----------------------------------------------------------------------------- correspondence
 
 def correspond(run):
-    n = 150 if run.tier == "quick" else 3000
+    n = 200 if run.tier == "quick" else 10000
     cases = common.load_corpus(PROP) + [gen_case(run.rng, i) for i in range(n)]
+    for k in STATS:
+        STATS[k] = 0
     res = evaluate(cases, "impl")
+    run.coverage.update(STATS)
     bad = {}
     skipped = 0
     for c, (st, key, why) in zip(cases, res):
